@@ -161,10 +161,14 @@ def run(ctx):
     import networkx as nx
     mod_calls = set()
     for st in ctx.src.module("fasta").tree.body:
-        if isinstance(st, ast.Expr) and isinstance(st.value, ast.Call) and isinstance(st.value.func, ast.Name):
-            r_ = ctx.src.resolve("fasta", st.value.func.id)
-            if r_ and r_[0] == "func":
-                mod_calls.add(r_[1])
+        if isinstance(st, (ast.FunctionDef, ast.ClassDef, ast.AsyncFunctionDef)):
+            continue
+        # statements run at import time, also inside a module-level loop over a table of averaged codes
+        for nd in ast.walk(st):
+            if isinstance(nd, ast.Call) and isinstance(nd.func, ast.Name):
+                r_ = ctx.src.resolve("fasta", nd.func.id)
+                if r_ and r_[0] == "func":
+                    mod_calls.add(r_[1])
     cands = set()
     for q_ in mod_calls:
         for d_ in (nx.descendants(cg, q_) if q_ in cg else ()):
@@ -215,6 +219,7 @@ def run(ctx):
     mod_ = ctx.src.module("fasta")
     started = False
     nexec = 0
+    mod_frame = None
     from ptstat.symx import Frame as _Frame
     for st in mod_.tree.body:
         if isinstance(st, ast.Assign) and any(isinstance(t_, ast.Name) and t_.id == "AMINO_ACID_CODES" for t_ in st.targets):
@@ -224,8 +229,9 @@ def run(ctx):
             continue
         if isinstance(st, ast.Assign):
             break                                  # the next table: the amino-acid table is complete
-        if isinstance(st, ast.Expr) and isinstance(st.value, ast.Call):
-            I.exec_stmt(st, _Frame(I, "fasta", "fasta"), sp.true)
+        if isinstance(st, ast.Expr) and isinstance(st.value, ast.Call) or isinstance(st, (ast.For, ast.Delete)):
+            mod_frame = mod_frame if nexec else _Frame(I, "fasta", "fasta")
+            I.exec_stmt(st, mod_frame, sp.true)
             nexec += 1
     s_tab = "periodictable/fasta.py AMINO_ACID_CODES (averaged entries)"
     for code, members in (("B", "DN"), ("Z", "EQ"), ("J", "LI"), ("X", std)):
